@@ -11,7 +11,8 @@ def rule_reuse_first(fx, col):
     for b in lib.bodies:
         for bb, t in b.calls(include_cleanup=False):
             c = t['callee']
-            if 'boxed::Box' in c.get('path', '') and c.get('name') in ('default', 'new') and 'debt::list::Node' in ' '.join(c.get('args', [])):
+            if ('boxed::Box' in c.get('path', '') or 'boxed::Box<' in (c.get('self_ty') or '')) and c.get('name') in ('default', 'new') \
+                    and 'debt::list::Node' in (c.get('pretty') or ''):
                 allocs.append((b, bb))
     col.floor('REUSE-FIRST', 'Node allocation sites', len(allocs), 1)
     for (ab, abb) in allocs:
